@@ -1,6 +1,7 @@
 import NfcVerif.Model.T3
 import NfcVerif.Model.T4
 import NfcVerif.Model.T3Emu
+import NfcVerif.Model.T3Format
 /-!
 Line-protocol driver of the Type 3 / Type 4 tag models (parts `t34` of C01, C02, C03).
 
@@ -8,9 +9,12 @@ Line-protocol driver of the Type 3 / Type 4 tag models (parts `t34` of C01, C02,
   t3.set <mem> <data>              -> none | <res> cmds=<blk>+<n>:<hex>,.. mem=<hex>   | exc <Name>
   t4.see <nl><sa> <cc> <file> <fid> <mle> <mlc>
   t4.set <nl><sa> <cc> <file> <fid> <mle> <mlc> <data>  -> none | <res> cmds=<off>:<hex>,.. mem=<hex>
-(<nl><sa>: two characters 0/1, the repairs present in the tree: NLEN loop, short APDU limits)
+(<nl><sa>: three characters 0/1, the repairs present in the tree: NLEN loop, short APDU limits, capacity
+ within the 16 bit offset)
+  t3.format <repaired 0|1> <mem> <limR> <limW> <version|none> <wipe|none>
+                                   -> <ok true|ok false|exc Name> cmds=<b.b.b>:<hex>,.. mem=<hex>
   t3e.enc r|w <idm> <service code> <b1,b2,..|-> <data>   -> ok <frame> | exc <Name>
-  t3e.raw <idm+pmm+sys> <store> <cmd>  -> ok <rsp|none> store=<hex> calls=<r|w><bn>:<begin>:<end>,.. | exc <Name>
+  t3e.raw <F23 repaired 0|1> <idm+pmm+sys> <store> <cmd>  -> ok <rsp|none> store=<hex> calls=<r|w><bn>:<begin>:<end>,.. | exc <Name>
 -/
 open NfcVerif NfcVerif.T34
 
@@ -26,9 +30,17 @@ def t3Trace (t : T3.Trace) : String :=
 def t4Trace (t : T4.Trace) : String :=
   showRes t.res ++ " cmds=" ++ joinC (t.sent.map fun c => s!"{c.off}:{toHex c.data}") ++ " mem=" ++ toHex t.file
 
+def optNat (s : String) : Option (Option Nat) := if s = "none" then some none else s.toNat?.map some
+
+def t3Format (rep : Bool) (m : Bytes) (lr lw : Nat) (v w : Option Nat) : String :=
+  let t := T3.format rep ⟨m, lr, lw⟩ v w
+  (match t.res with | .ok b => (if b then "ok true" else "ok false") | .error e => "exc " ++ e.name)
+    ++ " cmds=" ++ joinC (t.sent.map fun c => ".".intercalate (c.blocks.map toString) ++ ":" ++ toHex c.data)
+    ++ " mem=" ++ toHex t.mem
+
 def parseVar (s : String) : Option T4.Variant :=
   match s.toList with
-  | [a, b] => some ⟨a = '1', b = '1'⟩
+  | [a, b, c] => some ⟨a = '1', b = '1', c = '1'⟩
   | _ => none
 
 def card (cc file fid mle mlc : String) : Option T4.Card :=
@@ -42,9 +54,9 @@ def parseNats (s : String) : Option (List Nat) :=
 def showCall (c : T3Emu.Call) : String :=
   s!"{if c.w then "w" else "r"}{c.bn}:{if c.b then 1 else 0}:{if c.e then 1 else 0}"
 
-def emuRaw (ids store cmd : Bytes) : String :=
+def emuRaw (f23 : Bool) (ids store cmd : Bytes) : String :=
   let e : T3Emu.Emu := ⟨ids.take 8, (ids.drop 8).take 8, ids.drop 16, store⟩
-  match T3Emu.processCommand e cmd with
+  match T3Emu.processCommandR f23 e cmd with
   | .error x => "exc " ++ x.name
   | .ok (r, st, log) =>
     "ok " ++ (match r with | none => "none" | some b => toHex b) ++ " store=" ++ toHex st
@@ -60,6 +72,9 @@ def handle (line : String) : String :=
       | .ok none => "none"
       | .ok (some t) => t3Trace t)
     | _, _ => "bad-op"
+  | ["t3.format", r, m, lr, lw, v, w] => match parseHex m, lr.toNat?, lw.toNat?, optNat v, optNat w with
+    | some m, some lr, some lw, some v, some w => t3Format (r = "1") m lr lw v w
+    | _, _, _, _, _ => "bad-op"
   | ["t4.see", v, cc, f, fid, e, c] => match parseVar v, card cc f fid e c with
     | some v, some cd => showPy showSeen (T4.see v cd) | _, _ => "bad-op"
   | ["t4.set", v, cc, f, fid, e, c, d] => match parseVar v, card cc f fid e c, parseHex d with
@@ -72,8 +87,8 @@ def handle (line : String) : String :=
     | some idm, some sc, some bl, some d =>
       showPy toHex (if k = "w" then T3Emu.encWrite idm sc bl d else T3Emu.encRead idm sc bl)
     | _, _, _, _ => "bad-op"
-  | ["t3e.raw", ids, st, cmd] => match parseHex ids, parseHex st, parseHex cmd with
-    | some ids, some st, some cmd => emuRaw ids st cmd
+  | ["t3e.raw", f, ids, st, cmd] => match parseHex ids, parseHex st, parseHex cmd with
+    | some ids, some st, some cmd => emuRaw (f = "1") ids st cmd
     | _, _, _ => "bad-op"
   | _ => "bad-op"
 
